@@ -34,6 +34,18 @@ namespace c07tu {
 double u7(double v, int d) { return mp::round_to_digits(v, d); }
 bool u8(const mp::VarInfoStatic& x, int i) { return x.is_at_lb(i) && x.is_at_ub(i) && x.is_nonzero(i) && x.is_positive(i) && x.bounds_viol(i) > 0; }
 using VI = mp::VarInfoStatic;
+double e1(const mp::AbsConstraint& c, const VI& x) { return mp::ComputeValue(c, x); }
+double e2(const mp::NotConstraint& c, const VI& x) { return mp::ComputeValue(c, x); }
+double e3(const mp::DivConstraint& c, const VI& x) { return mp::ComputeValue(c, x); }
+double e4(const mp::IfThenConstraint& c, const VI& x) { return mp::ComputeValue(c, x); }
+double e5(const mp::ImplicationConstraint& c, const VI& x) { return mp::ComputeValue(c, x); }
+double e6(const mp::MaxConstraint& c, const VI& x) { return mp::ComputeValue(c, x); }
+double e7(const mp::MinConstraint& c, const VI& x) { return mp::ComputeValue(c, x); }
+double e8(const mp::AndConstraint& c, const VI& x) { return mp::ComputeValue(c, x); }
+double e9(const mp::OrConstraint& c, const VI& x) { return mp::ComputeValue(c, x); }
+double e10(const mp::CountConstraint& c, const VI& x) { return mp::ComputeValue(c, x); }
+mp::Violation u9(const mp::ComplementarityLinear& c, const VI& x) { return c.ComputeViolation(x); }
+mp::Violation u10(const mp::IndicatorConstraintLinLE& c, const VI& x) { return c.ComputeViolation(x); }
 mp::Violation u1(const mp::LinConRange& c, const VI& x) { return c.ComputeViolation(x, false); }
 mp::Violation u3(const mp::AbsConstraint& c, const VI& x) { return c.ComputeViolation(x); }
 mp::Violation u4(mp::CondLinConLE& c, const VI& x) { return c.ComputeViolation(x); }
@@ -180,6 +192,10 @@ class Sym:
                 t, env, L = self.ev(tgt, env)
                 v = self.fresh(nm)
                 env = dict(env); env[nm] = v
+                if ltype(qtype(tgt)) == 'D':
+                    if op != '++':
+                        raise TranslateError('-- on a double')
+                    return v, env, L + ['let %s := D.add %s (D.ofInt 1)' % (v, t)]
                 return v, env, L + ['let %s := %s %s 1' % (v, t, '+' if op == '++' else '-')]
             t, env, L = self.ev(e['inner'][0], env)
             ty = ltype(qtype(e))
@@ -256,7 +272,24 @@ class Sym:
                 else:
                     bname = base.get('name') or base.get('referencedDecl', {}).get('name') or '?'
                 # the abstracted operand is named by the indexed object AND the index: (*this)[i], lb_[i], ub_[i], x_[i] differ
-                key = '%s[%s]' % (bname, idx.get('referencedDecl', {}).get('name') or idx.get('name') or '?')
+                iname = idx.get('referencedDecl', {}).get('name') or idx.get('name')
+                if iname is None and idx.get('kind') == 'CXXOperatorCallExpr' and len(idx.get('inner', [])) == 3 \
+                        and strip(idx['inner'][0]).get('referencedDecl', {}).get('name') == 'operator[]':
+                    # x[con.GetArguments()[k]]: the k-th argument variable's value
+                    src = strip(idx['inner'][1])
+                    getter = strip(src['inner'][0]).get('name') if src.get('kind') == 'CXXMemberCallExpr' else None
+                    pos = strip(idx['inner'][2])
+                    if getter == 'GetArguments' and pos.get('kind') == 'IntegerLiteral':
+                        iname = 'arg%d' % int(pos['value'])
+                    elif getter == 'GetArguments' and pos.get('kind') == 'ConditionalOperator':
+                        a, b = strip(pos['inner'][1]), strip(pos['inner'][2])
+                        if a.get('kind') != 'IntegerLiteral' or b.get('kind') != 'IntegerLiteral':
+                            raise TranslateError('%s: argument position chosen by ?: between non-literals' % self.spec['lean'])
+                        c, env, L0 = self.ev(pos['inner'][0], env)
+                        ta = self.opaque('%s[arg%d]' % (bname, int(a['value'])), e)
+                        tb = self.opaque('%s[arg%d]' % (bname, int(b['value'])), e)
+                        return '(if %s then %s else %s)' % (self.as_bool(c, strip(pos['inner'][0])), ta, tb), env, L0
+                key = '%s[%s]' % (bname, iname or '?')
                 return self.opaque(key, e), env, []
             raise TranslateError('operator call ' + str(nm))
         if k == 'BinaryOperator':
@@ -413,7 +446,11 @@ class Sym:
             if not s.get('inner'):
                 return rest_k(env)
             t, env, L = self.ev(s['inner'][0], env)
-            return self.lets(L) + t
+            if ltype(qtype(strip(s['inner'][0]))) == 'Bool' and self.spec.get('ret') == 'D':
+                t = '(D.ofBool %s)' % t
+            return self.lets(L) + (self.ret_wrap(t) if getattr(self, 'ret_wrap', None) else t)
+        if k == 'CXXForRangeStmt':
+            return self.range_for(s, env, cont)
         if k == 'IfStmt':
             parts = s['inner']
             c, th = parts[0], parts[1]
@@ -475,6 +512,51 @@ class Sym:
             t, env, L = self.ev(s, env)
             return self.lets(L) + cont(env)
         raise TranslateError('%s: statement %s' % (self.spec['lean'], k))
+
+    def range_for(self, s, env, cont):
+        """`for (auto i : con.GetArguments()) body` where the body reads only x[i]: a left fold over the list `xs` of the argument
+        values, with the assigned locals as state and `return` inside the body as an early exit (Sum.inl)"""
+        parts = [c for c in s.get('inner', [])]
+        rng = [c for c in parts if c.get('kind') == 'DeclStmt' and c['inner'][0].get('name', '').startswith('__range')]
+        if not rng or 'GetArguments' not in [m.get('name') for m, _ in walk(rng[0])]:
+            raise TranslateError('%s: range-for over something else than GetArguments()' % self.spec['lean'])
+        body = parts[-1]
+        lv = parts[-2]['inner'][0]['name']
+        if getattr(self, 'ret_wrap', None):
+            raise TranslateError('nested loops')
+        # state: locals of the enclosing scope assigned in the body
+        assigned = []
+        for n, _ in walk(body):
+            if (n.get('kind') == 'BinaryOperator' and n.get('opcode') == '=') or (n.get('kind') == 'UnaryOperator' and n.get('opcode') in ('++', '--')) \
+                    or n.get('kind') == 'CompoundAssignOperator':
+                tgt = strip(n['inner'][0])
+                nm = tgt.get('referencedDecl', {}).get('name')
+                if nm is None or nm not in env:
+                    raise TranslateError('%s: assignment to a non-local inside a loop' % self.spec['lean'])
+                if nm not in assigned:
+                    assigned.append(nm)
+        if len(assigned) > 1:
+            raise TranslateError('%s: more than one loop-carried local' % self.spec['lean'])
+        xs = self.opaque('args', s)
+        xi = self.opaque('x[%s]' % lv, s)
+        benv = dict(env)
+        st_ty, st_pat, st_init = 'Unit', '()', '()'
+        if assigned:
+            st_ty, st_pat, st_init = 'D', 'st', env[assigned[0]]
+            benv[assigned[0]] = 'st'
+        self.ret_wrap = lambda t: '(Sum.inl %s)' % t
+        try:
+            bterm = self.block([body], benv, lambda en: '(Sum.inr %s)' % (en[assigned[0]] if assigned else '()'))
+        finally:
+            self.ret_wrap = None
+        res = self.fresh('loop')
+        out = 'match List.foldl (fun (acc : Sum D %s) (%s : D) => match acc with\n    | Sum.inl r => Sum.inl r\n    | Sum.inr %s =>\n%s) (Sum.inr %s) %s with\n' % (
+            st_ty, xi, st_pat, ind(ind(ind(bterm))), st_init, xs)
+        env2 = dict(env)
+        if assigned:
+            env2[assigned[0]] = res
+        out += '| Sum.inl r => r\n| Sum.inr %s =>\n%s' % (res if assigned else '_', ind(cont(env2)))
+        return out
 
     @staticmethod
     def ends_with_return(stmts):
@@ -815,6 +897,41 @@ def main(repo, out, work):
                            'params': [('xi', 'D'), ('isint', 'Bool'), ('tol', 'D')], 'opaque': {'this[i]': 'xi', 'is_var_int': 'isint', 'feastol': 'tol'}}, vi['is_positive']))
     parts.append(emit_def({'cxx': 'mp::VarInfoImpl<VarVec>::bounds_viol', 'lean': 'boundsViol', 'ret': 'D',
                            'params': [('lbi', 'D'), ('xi', 'D'), ('ubi', 'D')], 'opaque': {'x_[i]': 'xi', 'lb_[i]': 'lbi', 'ub_[i]': 'ubi'}}, vi['bounds_viol']))
+    # ---- 6d. loop-free evaluators of constr_eval.h (instantiated for VarInfoStatic): Abs, Not, Div, IfThen, Implication
+    def evalfn(ctype):
+        hits = find_fn(D['ComputeValue'], 'ComputeValue', lambda n, p: n.get('kind') == 'FunctionDecl' and 'VarInfoImpl' in qtype(n) and ('const mp::%s &' % ctype) in qtype(n))
+        if len(hits) != 1:
+            raise TranslateError('ComputeValue(%s, VarInfoImpl) instantiation: %d found' % (ctype, len(hits)))
+        return hits[0]
+    parts.append(emit_def({'cxx': 'mp::ComputeValue(const AbsConstraint&, x) (constr_eval.h)', 'lean': 'evalAbs', 'ret': 'D',
+                           'params': [('a0', 'D')], 'opaque': {'x[arg0]': 'a0'}}, evalfn('AbsConstraint')))
+    parts.append(emit_def({'cxx': 'mp::ComputeValue(const NotConstraint&, x)', 'lean': 'evalNot', 'ret': 'D',
+                           'params': [('a0', 'D')], 'opaque': {'x[arg0]': 'a0'}}, evalfn('NotConstraint')))
+    parts.append(emit_def({'cxx': 'mp::ComputeValue(const DivConstraint&, x)', 'lean': 'evalDiv', 'ret': 'D',
+                           'params': [('a0', 'D'), ('a1', 'D')], 'opaque': {'x[arg0]': 'a0', 'x[arg1]': 'a1'}}, evalfn('DivConstraint')))
+    parts.append(emit_def({'cxx': 'mp::ComputeValue(const IfThenConstraint&, x)', 'lean': 'evalIfThen', 'ret': 'D',
+                           'params': [('a0', 'D'), ('a1', 'D'), ('a2', 'D')], 'opaque': {'x[arg0]': 'a0', 'x[arg1]': 'a1', 'x[arg2]': 'a2'}}, evalfn('IfThenConstraint')))
+    parts.append(emit_def({'cxx': 'mp::ComputeValue(const ImplicationConstraint&, x)', 'lean': 'evalImpl', 'ret': 'D',
+                           'params': [('a0', 'D'), ('a1', 'D'), ('a2', 'D')], 'opaque': {'x[arg0]': 'a0', 'x[arg1]': 'a1', 'x[arg2]': 'a2'}}, evalfn('ImplicationConstraint')))
+    # range-for evaluators: a fold over the list of argument values
+    for ctype, lean in (('MaxConstraint', 'evalMax'), ('MinConstraint', 'evalMin'), ('AndConstraint', 'evalAnd'), ('OrConstraint', 'evalOr'),
+                        ('CountConstraint', 'evalCount')):
+        parts.append(emit_def({'cxx': 'mp::ComputeValue(const %s&, x) (constr_eval.h; range-for over the arguments as a fold)' % ctype, 'lean': lean, 'ret': 'D',
+                               'params': [('xs', 'List D')], 'opaque': {'args': 'xs', 'x[i]': 'xi', 'x[v]': 'xi'}, 'optional_opaque': True}, evalfn(ctype)))
+    # ---- 6e. ComplementarityConstraint / IndicatorConstraint :: ComputeViolation (constr_general.h)
+    cg = dump('ComplementarityConstraint')
+    fcm = find_fn(cg, 'ComputeViolation', lambda n, p: 'VarInfoImpl' in qtype(n))
+    if not fcm:
+        raise TranslateError('ComplementarityConstraint::ComputeViolation instantiation not found')
+    parts.append(emit_def({'cxx': 'mp::ComplementarityConstraint<Expr>::ComputeViolation (constr_general.h)', 'lean': 'complComputeViolation', 'ret': 'D × D',
+                           'params': [('ve', 'D'), ('atlb', 'Bool'), ('atub', 'Bool')],
+                           'opaque': {'ComputeValue': 've', 'is_at_lb': 'atlb', 'is_at_ub': 'atub'}}, fcm[0]))
+    fin_ = find_fn(dump('IndicatorConstraint'), 'ComputeViolation', lambda n, p: 'VarInfoImpl' in qtype(n))
+    if not fin_:
+        raise TranslateError('IndicatorConstraint::ComputeViolation instantiation not found')
+    parts.append(emit_def({'cxx': 'mp::IndicatorConstraint<Con>::ComputeViolation (constr_general.h)', 'lean': 'indComputeViolation', 'ret': 'D × D',
+                           'params': [('xb0', 'D'), ('bv_', 'Int', 'bv'), ('subviol', 'D'), ('subref', 'D')],
+                           'opaque': {'x[b_]': 'xb0', 'ComputeViolation': '(subviol, subref)'}}, fin_[0]))
     # ---- 7. class selection in ComputeViolations
     fn, seq, idx = class_selection(D['ConstraintKeeper'])
     sym_spec = {'cxx': 'ConstraintKeeper<..>::ComputeViolations, lines `int c_class=0; ... if (c_class & chk.check_mode())` (constr_keeper.h)',
